@@ -678,6 +678,12 @@ func (x *vfC19Run) round(stage string) {
 	if cur == nil {
 		return
 	}
+	x.writes(stage, cur)
+	x.inbound(stage, cur, prev)
+}
+
+// writes: every WriteTo must leave exactly once via the newest socket to server:port-of-set.
+func (x *vfC19Run) writes(stage string, cur *vfC19Sock) {
 	for i := 0; i < 2; i++ {
 		x.seq++
 		tag := fmt.Sprintf("w|%s|%d", x.h.CaseID, x.seq)
@@ -706,7 +712,10 @@ func (x *vfC19Run) round(stage string) {
 			x.viol("udphop:write-payload-changed", "%s: payload %q was sent as %q", stage, tag, rec.Tag)
 		}
 	}
-	// inbound
+}
+
+// inbound: packets injected on the previous and on the current socket must come out of ReadFrom.
+func (x *vfC19Run) inbound(stage string, cur, prev *vfC19Sock) {
 	want := map[string]string{}
 	inj := func(s *vfC19Sock, which string) {
 		if s == nil {
@@ -1096,10 +1105,19 @@ func (x *vfC19Run) forceCloseChan() {
 
 // cleanup makes sure the bubble can exit whatever the code under test did (it never judges).
 func (x *vfC19Run) cleanup() {
-	func() {
-		defer func() { _ = recover() }()
-		_ = x.u.Close()
-	}()
+	// First let every receive loop finish (sockets force-closed, queue emptied), so that nothing the
+	// code under test may be waiting for is still parked; only then call Close, and only if the
+	// connection mutex is free (a Close blocked on a mutex would hang the bubble in real time).
+	for _, s := range x.net.allSocks() {
+		s.forceClose()
+	}
+	x.drainQueue()
+	if x.lockFree() {
+		func() {
+			defer func() { _ = recover() }()
+			_ = x.u.Close()
+		}()
+	}
 	x.forceCloseChan()
 	if x.rd != nil {
 		synctest.Wait()
@@ -1111,20 +1129,38 @@ func (x *vfC19Run) cleanup() {
 			x.k.Inconclusive(fmt.Sprintf("%s: %d read results beyond the harness buffer were not examined", x.h.CaseID, n))
 		}
 	}
-	for _, s := range x.net.allSocks() {
-		s.forceClose()
-	}
-	for i := 0; i < 4; i++ {
+	x.drainQueue()
+}
+
+// drainQueue empties the receive queue until it stays empty (harness cleanup only).
+func (x *vfC19Run) drainQueue() {
+	for i := 0; i < 8; i++ {
 		synctest.Wait()
+		n := 0
 		for {
 			select {
 			case <-x.u.recvQueue:
+				n++
 				continue
 			default:
 			}
 			break
 		}
+		if n == 0 && i > 0 {
+			return
+		}
 	}
+}
+
+// lockFree reports whether the connection mutex can be taken right now. It is only meaningful at a
+// quiescent point (after synctest.Wait()): there every goroutine of the bubble is durably blocked, so
+// a held mutex means its holder is parked while holding it.
+func (x *vfC19Run) lockFree() bool {
+	if x.u.connMutex.TryLock() {
+		x.u.connMutex.Unlock()
+		return true
+	}
+	return false
 }
 
 func vfC19RunHist(k *vfKit, t *testing.T, h *vfC19Hist) {
@@ -1411,6 +1447,237 @@ func vfC19StaleTimeoutProbe(k *vfKit, t *testing.T, pc *vfC19PortCfg) {
 		k.Sample(map[string]any{"observation": "not a verdict", "history": "hop #1 ok; SetReadDeadline(past); SetReadDeadline(zero); packet injected on previous socket; caller reads on",
 			"timeout_results_in_queue": queued, "stale_timeouts_read": timeouts, "packet_delivered": got})
 	})
+}
+
+// ---------------------------------------------------------------------------- expired deadline, nobody reads
+
+// vfC19Idle: the caller sets a read deadline in the past and then stops calling ReadFrom (what a QUIC
+// transport does when it shuts down). The receive loops fill the queue with timeout results and
+// park. Hops must go on all the same (gap <= Max, census = the two newest sockets, writes via the
+// newest socket), and Close must return and close every socket ever opened.
+//
+// "Never returns" is decided logically: (a) no hop attempt within Max of the previous one, or
+// (b) at a quiescent point (synctest.Wait(): every goroutine of the bubble is durably blocked) the
+// connection mutex is held - its holder is parked inside a critical section, so WriteTo/Close/the next
+// hop can never get in - and it is still held three maximal intervals later with nobody touching the
+// connection. WriteTo/Close are only called when the mutex is free (a goroutine blocked on a mutex is
+// not durably blocked and would stall the bubble in real time).
+type vfC19IdleCase struct {
+	CaseID     string `json:"case_id"`
+	Host       string `json:"host"`
+	Ports      string `json:"ports"`
+	MinNs      int64  `json:"interval_min_ns"`
+	MaxNs      int64  `json:"interval_max_ns"`
+	HopsBefore int    `json:"hops_before_deadline"`
+	HopsAfter  int    `json:"hops_after_deadline_with_nobody_reading"`
+	Fail       []int  `json:"failing_creation_indexes"`
+	SetAtNs    int64  `json:"deadline_set_ns_after_last_hop"`
+	UseSetDL   bool   `json:"via_SetDeadline"`
+	VSeed      int64  `json:"variant_seed"`
+}
+
+func vfC19RunIdle(k *vfKit, t *testing.T, c *vfC19IdleCase, pc *vfC19PortCfg) {
+	min, max := time.Duration(c.MinNs), time.Duration(c.MaxNs)
+	fail := map[int]bool{}
+	for _, i := range c.Fail {
+		fail[i] = true
+	}
+	h := &vfC19Hist{CaseID: c.CaseID, Host: c.Host, Ports: c.Ports, pc: pc, MinNs: c.MinNs, MaxNs: c.MaxNs, Hops: c.HopsBefore + c.HopsAfter, Fail: c.Fail, fail: fail}
+	x := &vfC19Run{k: k, h: h, r: rand.New(rand.NewSource(c.VSeed)), effI: [2]time.Duration{min, max}}
+	x.net = vfC19NewNet(func(idx int) bool { return fail[idx] })
+	addr := vfC19Resolve(k, pc, c)
+	if addr == nil {
+		return
+	}
+	viol := func(key, format string, args ...any) { k.Violation(key, c, format, args...) }
+	t0 := time.Now()
+	pcn, err := NewUDPHopPacketConn(addr, HopIntervalConfig{Min: min, Max: max}, x.net.listen)
+	if err != nil {
+		t.Fatalf("C19 harness: constructor failed on a valid configuration: %v", err)
+	}
+	x.u = pcn.(*udpHopPacketConn)
+	<-x.net.hopCh
+	x.rd = &vfC19Reader{u: x.u, req: make(chan int), res: make(chan vfC19ReadRes, 1024)}
+	go x.rd.loop()
+	defer x.cleanup()
+	synctest.Wait()
+
+	// stuck: the connection mutex is held at two quiescent points three maximal intervals apart.
+	stuck := func(stage string) bool {
+		if x.lockFree() {
+			return false
+		}
+		before := len(x.net.attemptsCopy())
+		time.Sleep(3*max + time.Second)
+		synctest.Wait()
+		if x.lockFree() {
+			return false
+		}
+		viol("udphop:hop-or-close-never-returns", "%s: the connection mutex is held while every goroutine is parked, and still 3 intervals later (hop attempts in between: %d): a hop/Close/WriteTo never returns, so later WriteTo and Close calls block for good; open sockets now: %v",
+			stage, len(x.net.attemptsCopy())-before, x.net.openIDs())
+		return true
+	}
+	// nextHop waits for hop attempt #hop; it must come within Max of the previous attempt.
+	last := t0
+	nextHop := func(hop int) bool {
+		deadline := time.NewTimer(time.Until(last.Add(max)) + 1)
+		defer deadline.Stop()
+		select {
+		case idx := <-x.net.hopCh:
+			synctest.Wait()
+			if idx != hop {
+				t.Fatalf("C19 harness: expected creation #%d, saw #%d", hop, idx)
+			}
+			now := time.Now()
+			if gap := now.Sub(last); gap < min || gap > max {
+				viol("udphop:hop-gap-outside-interval", "hop attempt #%d came %v after the previous one; configured interval is [%v, %v]", hop, gap, min, max)
+			}
+			last = now
+			k.Count("ev_hop_attempts", 1)
+			return true
+		case <-deadline.C:
+			synctest.Wait()
+			viol("udphop:hop-or-close-never-returns", "no hop attempt #%d within the maximal interval %v after attempt #%d (mutex free: %v, open sockets: %v): the previous hop never returned or hopping stopped",
+				hop, max, hop-1, x.lockFree(), x.net.openIDs())
+			return false
+		}
+	}
+	hop := 0
+	for ; hop < c.HopsBefore; hop++ {
+		if !nextHop(hop + 1) {
+			return
+		}
+		x.round(fmt.Sprintf("after hop attempt #%d", hop+1))
+	}
+	// the caller sets an expired read deadline and stops reading
+	if c.SetAtNs > 0 {
+		time.Sleep(time.Duration(c.SetAtNs))
+		synctest.Wait()
+	}
+	past := time.Now().Add(-time.Second)
+	if c.UseSetDL {
+		err = x.u.SetDeadline(past)
+	} else {
+		err = x.u.SetReadDeadline(past)
+	}
+	if err != nil {
+		viol("udphop:set-deadline-failed-while-open", "setting a read deadline in the past on an open hop connection failed: %v", err)
+	}
+	synctest.Wait()
+	k.Count("ev_idle_expired_deadline_set", 1)
+	k.Count("idle_timeout_results_queued", int64(len(x.u.recvQueue)))
+	for i := 0; i < c.HopsAfter; i++ {
+		hop++
+		if !nextHop(hop) {
+			return
+		}
+		stage := fmt.Sprintf("after hop attempt #%d (expired read deadline, nobody reading)", hop)
+		if stuck(stage) {
+			return
+		}
+		cur, _ := x.census(stage)
+		if cur != nil && !c.UseSetDL { // with SetDeadline the write deadline is expired too: writes are not judged
+			x.writes(stage, cur)
+		}
+		k.Count("ev_idle_hops_checked", 1)
+	}
+	// Close, still with nobody reading
+	if x.r.Intn(2) == 0 {
+		time.Sleep(1 + time.Duration(x.r.Int63n(int64(min)-1)))
+		synctest.Wait()
+	}
+	if stuck("before Close") {
+		return
+	}
+	if k.Guard("udphop:Close-panic", c, func() { _ = x.u.Close() }) {
+		return
+	}
+	synctest.Wait()
+	k.Count("ev_close_checked", 1)
+	if stuck("after Close") {
+		return
+	}
+	x.closedCensus("after Close (expired read deadline, nobody reading)")
+	before := x.net.sentLen()
+	if _, err := x.u.WriteTo([]byte("w-after-close|"+c.CaseID), x.u.Addr); err == nil {
+		viol("udphop:write-succeeds-after-close", "WriteTo after Close returned nil")
+	}
+	if recs := x.net.sentFrom(before); len(recs) != 0 {
+		viol("udphop:write-sent-after-close", "WriteTo after Close put a packet on socket #%d", recs[0].Sock)
+	}
+	k.Count("ev_writes_after_close", 1)
+	// reads: the queue holds stale timeout results; every read must fail, none may block
+	post := map[string]bool{}
+	for _, s := range x.net.allSocks() {
+		tag := fmt.Sprintf("p|%s|#%d", c.CaseID, s.id)
+		post[tag] = true
+		s.inject([]byte(tag))
+	}
+	synctest.Wait()
+	res, blocked := x.readN(1100)
+	if blocked {
+		viol("udphop:read-blocks-after-close", "ReadFrom blocks after Close (read #%d)", len(res)+1)
+	}
+	k.Count("ev_reads_after_close", 1)
+	k.Count("idle_failed_reads_after_close", int64(len(res)))
+	for _, r := range res {
+		if r.err == nil {
+			if post[string(r.data)] {
+				viol("udphop:post-close-packet-returned", "packet %q arrived after Close and was returned by ReadFrom", r.data)
+			} else {
+				viol("udphop:read-succeeds-after-close", "ReadFrom after Close returned %q", r.data)
+			}
+		}
+	}
+	time.Sleep(3*max + time.Second)
+	synctest.Wait()
+	x.closedCensus("3 intervals after Close (expired read deadline, nobody reading)")
+}
+
+func TestVerifC19HopIdle(t *testing.T) {
+	k := vfNewKit(t, "C19", "hop-idle")
+	defer k.Finish()
+	pcs := vfC19PortCfgs()
+	passes := k.N(1, 12)
+	for pass := 0; pass < passes; pass++ {
+		r := k.Rand(fmt.Sprintf("idle/%d", pass))
+		// every subset of failing creations for every (hops before, hops after) in {0,1,2} x {2,3,4}
+		for hb := 0; hb <= 2; hb++ {
+			for ha := 2; ha <= 4; ha++ {
+				n := hb + ha
+				for mask := 0; mask < 1<<n; mask++ {
+					iv := vfC19Intervals[r.Intn(len(vfC19Intervals))]
+					pc := pcs[r.Intn(len(pcs))]
+					min, max := iv.min, iv.max
+					if min == 0 {
+						min, max = 30*time.Second, 30*time.Second
+					}
+					c := &vfC19IdleCase{
+						CaseID: fmt.Sprintf("idle/p%d/b%d/a%d/m%d", pass, hb, ha, mask),
+						Host:   pc.Host, Ports: pc.Expr, MinNs: int64(min), MaxNs: int64(max),
+						HopsBefore: hb, HopsAfter: ha, UseSetDL: r.Intn(4) == 0, VSeed: r.Int63(),
+					}
+					if r.Intn(2) == 0 {
+						c.SetAtNs = 1 + r.Int63n(int64(min)-1)
+					}
+					for b := 0; b < n; b++ {
+						if mask>>b&1 == 1 {
+							c.Fail = append(c.Fail, b+1)
+						}
+					}
+					if rc := k.ReplayCase(); rc != "" && rc != c.CaseID {
+						continue
+					}
+					k.Eval()
+					synctest.Test(t, func(t *testing.T) { vfC19RunIdle(k, t, c, pc) })
+					k.Nontrivial(fmt.Sprintf("%+v", *c))
+					if mask == 0 && hb == 1 && ha == 2 {
+						k.Sample(c)
+					}
+				}
+			}
+		}
+	}
 }
 
 // ---------------------------------------------------------------------------- concurrency
